@@ -2527,15 +2527,15 @@ class Matrix:
                 self.b = m[1]
                 self.c = m[2]
                 self.d = m[3]
-                self.e = m[4]
-                self.f = m[5]
+                self.e = _own_length(m[4])  # a translation that is still a Length (1in) is mutable
+                self.f = _own_length(m[5])
         else:
             self.a = components[0]
             self.b = components[1]
             self.c = components[2]
             self.d = components[3]
-            self.e = components[4]
-            self.f = components[5]
+            self.e = _own_length(components[4])
+            self.f = _own_length(components[5])
             self.render(**kwargs)
 
     def __ne__(self, other):
@@ -8434,12 +8434,12 @@ class Text(SVGElement, GraphicObject, Transformable):
         GraphicObject.property_by_object(self, s)
         SVGElement.property_by_object(self, s)
         self.text = s.text
-        self.x = s.x
-        self.y = s.y
-        self.width = s.width
-        self.height = s.height
-        self.dx = s.dx
-        self.dy = s.dy
+        self.x = _own_length(s.x)
+        self.y = _own_length(s.y)
+        self.width = _own_length(s.width)
+        self.height = _own_length(s.height)
+        self.dx = _own_length(s.dx)
+        self.dy = _own_length(s.dy)
         self.anchor = s.anchor
         self.font_family = s.font_family
         self.font_style = s.font_style
@@ -8772,10 +8772,10 @@ class Image(SVGElement, GraphicObject, Transformable):
         self.viewbox = s.viewbox
         self.preserve_aspect_ratio = s.preserve_aspect_ratio
 
-        self.x = s.x
-        self.y = s.y
-        self.width = s.width
-        self.height = s.height
+        self.x = _own_length(s.x)
+        self.y = _own_length(s.y)
+        self.width = _own_length(s.width)
+        self.height = _own_length(s.height)
 
         self.image = s.image
         self.image_width = s.image_width
